@@ -40,6 +40,8 @@ def showBinary (b : AssetBinary) : String :=
 def binaryOf (c : List String) : Option (Endian × AssetBinary) :=
   match c with
   | _ :: "asset" :: fl :: specs => some (.little, ⟨fl.toNat?.getD 0, specs.map specOf⟩)
+  -- second use: the same round trip after other (failing) calls on the thread — same expected line
+  | _ :: "asset-after" :: fl :: specs => some (.little, ⟨fl.toNat?.getD 0, specs.map specOf⟩)
   | _ :: "asset-hand" :: "LE" :: fl :: specs => some (.little, ⟨fl.toNat?.getD 0, specs.map specOf⟩)
   | _ :: "asset-hand" :: "BE" :: fl :: specs => some (.big, ⟨fl.toNat?.getD 0, specs.map specOf⟩)
   | _ => none
@@ -155,6 +157,8 @@ def oracle (e : Endian) (b : AssetBinary) (i : List String) : String :=
             else "ok"
   | _ :: "ok" :: _ :: _ :: "rr-diff" :: _ =>
     "FAIL roundtrip: from_archive and record-by-record from_stream return different values"
+  | _ :: "ok" :: _ :: _ :: "rr-ok" :: _ :: _ :: "unstable" :: _ =>
+    "FAIL roundtrip: the same round trip gives different results after other (failing) calls on the thread"
   | _ :: "panic" :: _ => "FAIL panic"
   | _ :: "err" :: _ => "FAIL serialize failed"
   | _ => "FAIL roundtrip: the serialised file could not be re-read"
